@@ -872,7 +872,7 @@ def main():
     finally:
         shutil.rmtree(tmp, ignore_errors=True)
     print(json.dumps({
-        "scope": {"c01": "a __main__ script through 5 edits; the pipeline on the memory / noop / cache-wrapped local store through 2 edits; %d single edits of a 30-keep pipeline (each dependency kind), value vs plain execution and signature sensitivity" % len(EDITS), "c02": "%d single edits + restart + revert: re-execution only inside the dependency cone" % len(EDITS), "c03": "17 environment variants (hash seeds, cwd, location, symlinked package, symlinked store, 5 store kinds, debug, graph export, reload, history), each with a second evaluation that loads a path committed by the first, + pinned signatures of the corpus"}[mode],
+        "scope": {"c01": "a __main__ script through 5 edits; the pipeline on the memory / noop / cache-wrapped local store through 2 edits; %d single edits of a pipeline with 32 kept paths (each dependency kind), value vs plain execution and signature sensitivity" % len(EDITS), "c02": "%d single edits + restart + revert: re-execution only inside the dependency cone" % len(EDITS), "c03": "17 environment variants (hash seeds, cwd, location, symlinked package, symlinked store, 5 store kinds, debug, graph export, reload, history), each with a second evaluation that loads a path committed by the first, + pinned signatures of the corpus"}[mode],
         "evaluations": evals, "distinct_nontrivial": evals, "rule": "one case per edit (c01/c02) or per environment variant (c03), each in fresh interpreter processes",
         "samples": samples, "violations": violations,
         "known_hits": ["bounded:%s (%d cases, e.g. %s)" % (c, len(w), w[0][:170]) for c, w in sorted(known.items())],
